@@ -58,6 +58,7 @@ def run(ctx):
     ctx.do(rule_flag_back)
     ctx.do(rule_built_elements_counted)
     ctx.do(rule_reference_flag_knows_the_whitelist)
+    ctx.do(rule_custom_name_sets_agree)
     ctx.do(rule_privileged_keys)
     ctx.do(rule_raw_passthrough)
     ctx.do(rule_extra_props)
@@ -355,6 +356,45 @@ def rule_reference_flag_knows_the_whitelist(ctx):
               line=relax[0].lineno, function=fi.qualname,
               expected="has_custom true for what only the relaxed test admits (flag derived from self.generics / self.specifics)",
               found=bad)
+
+
+def rule_custom_name_sets_agree(ctx):
+    """The constructor decides twice which names are custom: for the keyword arguments (custom_kwargs: refused in strict mode)
+    and for everything including `custom_properties` (all_custom_prop_names: seeds has_custom).  Both subtract the names that
+    are DEFINED for this object.  Sibling agreement: every set subtracted in the first is subtracted in the second too, or a
+    name defined by a registered toplevel-property-extension is 'not custom' as a keyword and 'custom' through
+    custom_properties -- has_custom true for an object whose serialisation a strict parse accepts."""
+    run = ctx.run
+    prog = ctx.prog
+    R = "C04.flag-back"
+    init = prog.func("stix2.base::_STIXBase.__init__")
+
+    def subtrahends(e):
+        out = []
+        while isinstance(e, ast.BinOp) and isinstance(e.op, ast.Sub):
+            out.append(norm(e.right))
+            e = e.left
+        return set(out), e
+    sets = {}
+    for a_ in body_walk(init.node):
+        if isinstance(a_, ast.Assign) and len(a_.targets) == 1 and isinstance(a_.targets[0], ast.Name) \
+                and isinstance(a_.value, ast.BinOp) and isinstance(a_.value.op, ast.Sub):
+            subs, base = subtrahends(a_.value)
+            sets.setdefault(a_.targets[0].id, []).append((subs, norm(base), a_))
+    kw = init.kwarg or "kwargs"
+    first = [(s_, b_, a_) for nm, lst in sets.items() for s_, b_, a_ in lst if b_ == "%s.keys()" % kw]
+    second = [(s_, b_, a_) for nm, lst in sets.items() for s_, b_, a_ in lst if b_ != "%s.keys()" % kw and any(
+        nm1 in b_ for nm1, l1 in sets.items() if any(b1 == "%s.keys()" % kw for _s, b1, _a in l1))]
+    if not first or not second:
+        raise AnalysisError("_STIXBase.__init__: the two custom-name computations were not found (rule out of date)")
+    want = set().union(*[s_ for s_, _b, _a in first])
+    for s_, b_, a_ in second:
+        missing = sorted(want - s_)
+        run.check(not missing, R, key(init.module.relpath, init.qualname, "custom-name-sets-agree"),
+                  "names that are not custom as keyword arguments (%s) are custom when given through custom_properties: the flag "
+                  "differs for two spellings of the same object, and is true although a strict parse accepts the serialisation"
+                  % ", ".join(missing), file=init.module.relpath, line=a_.lineno, function=init.qualname,
+                  expected="the same defined-name sets subtracted in both computations", found=sorted(s_))
 
 
 _PLAIN_TYPES = ("dict", "str", "list", "tuple", "set", "bytes", "int", "float", "bool", "collections.abc.Mapping", "Mapping",
